@@ -417,6 +417,58 @@ func (d *driver) preface(r int) {
 		return 0
 	}
 	switch {
+	case f.V.V1 && r%2 == 1:
+		// first-generation sweep as a cursor machine: more open borrows than the batch size, full rounds of the cursor while everything is
+		// safe, then positions at the middle, the head and the tail of the list become unsafe AFTER the cursor has passed them
+		batch := int(f.V.Batch)
+		n := 2*batch + 2
+		if n > 6 {
+			n = 6
+		}
+		rounds := 2*((n+batch-1)/batch) + 2
+		fracs := []int64{60, 90, 75, 70, 88, 65}
+		k2 := 0
+		for _, pid := range []int64{1, 2} { // list order of the sweep: borrows on TB first, then borrows on TC
+			for _, u := range f.V.Users {
+				if k2 >= n || (pid == 2 && k2 < 3 && n <= 3) {
+					continue
+				}
+				p := d.pair(uint64(pid))
+				if lendID(u, 1, 1) == 0 {
+					d.do("Lend", M{"u": u, "pool": int64(1), "asset": int64(1), "da": int64(1), "amt": amt * 3})
+				}
+				cin := amt
+				if ml := d.maxLoan(cin, p.AssetIn, p.AssetOut, d.ltvOf(p)); ml > f.V.Pool/10 { // keep every loan well inside the debt pool's liquidity
+					cin = pos(cin * (f.V.Pool / 10) / ml)
+				}
+				loan := pos(d.maxLoan(cin, p.AssetIn, p.AssetOut, d.ltvOf(p)) * fracs[k2] / 100)
+				d.do("Borrow", M{"u": u, "lend": lendID(u, 1, 1), "pair": pid, "ca": int64(1), "cin": cin, "la": int64(p.AssetOut), "loan": loan, "stable": false, "mis": false})
+				k2++
+			}
+		}
+		ticks := func(m int) bool {
+			for ; m > 0; m-- {
+				if r := d.do("Tick", M{"dt": int64(6)}); getb(r, "panic") {
+					return false
+				}
+			}
+			return true
+		}
+		if !ticks(rounds) { // everything safe: the cursor goes round the list
+			return
+		}
+		bs := k.GetAllBorrow(e.Ctx)
+		for _, idx := range []int{1, 0, len(bs) - 1} { // middle, head, tail
+			if idx < 0 || idx >= len(bs) {
+				continue
+			}
+			if b, found := k.GetBorrow(e.Ctx, bs[idx].ID); found && !b.IsLiquidated {
+				d.aim(b, 1.03, 1.12)
+				if !ticks(rounds) {
+					return
+				}
+			}
+		}
 	case f.V.V1:
 		// first generation: two users borrow, prices make the positions unsafe, message / sweep, then bids: partial, over-sized closing
 		for i, u := range []string{"u1", "u2"} {
@@ -487,8 +539,20 @@ func (d *driver) preface(r int) {
 			loan := pos(d.maxLoan(amt, p.AssetIn, p.AssetOut, d.ltvOf(p)) * 9 / 10)
 			d.do("Borrow", M{"u": u, "lend": lendID(u, 1, 1), "pair": int64(2), "ca": int64(1), "cin": amt, "la": int64(p.AssetOut), "loan": loan, "stable": false, "mis": false})
 		}
-		if b, ok := lastBorrow(); ok {
-			d.aim(b, 1.05, 1.5)
+		// an e-mode position between the plain and the e-mode threshold: neither the message nor the sweep may seize it
+		pe := d.pair(11)
+		d.do("Lend", M{"u": "u1", "pool": int64(1), "asset": int64(2), "da": int64(2), "amt": amt * 2})
+		le := pos(d.maxLoan(amt*2, pe.AssetIn, pe.AssetOut, d.ltvOf(pe)) * 9 / 10)
+		d.do("Borrow", M{"u": "u1", "lend": lendID("u1", 2, 1), "pair": int64(11), "ca": int64(2), "cin": amt * 2, "la": int64(pe.AssetOut), "loan": le, "stable": false, "mis": false})
+		if b, ok := lastBorrow(); ok && b.PairID == 11 {
+			d.aim(b, 0.93, 0.99)
+			d.do(d.liqAction(), M{"u": "kp", "b": int64(b.ID)})
+			d.do("Tick", M{"dt": int64(6)})
+			d.do("Tick", M{"dt": int64(6)})
+			d.do("Tick", M{"dt": int64(6)})
+		}
+		if bs := k.GetAllBorrow(e.Ctx); len(bs) > 0 {
+			d.aim(bs[0], 1.05, 1.5)
 			for n := 0; n < 7; n++ {
 				d.do("Tick", M{"dt": int64(6)})
 			}
